@@ -117,6 +117,11 @@ type vPartResult struct {
 
 // vProduce sends one produce request (version 7) and decodes the reply.
 func vProduce(h *handler, acks int16, parts map[string]map[int32][]byte) ([]vPartResult, error) {
+	return vProduceCtx(context.Background(), h, acks, parts)
+}
+
+// vProduceCtx is vProduce with the request context given by the caller.
+func vProduceCtx(ctx context.Context, h *handler, acks int16, parts map[string]map[int32][]byte) ([]vPartResult, error) {
 	req := kmsg.NewPtrProduceRequest()
 	req.Version = 7
 	req.Acks = acks
@@ -143,7 +148,7 @@ func vProduce(h *handler, acks int16, parts map[string]map[int32][]byte) ([]vPar
 		req.Topics = append(req.Topics, t)
 	}
 	hdr := &protocol.RequestHeader{APIKey: 0, APIVersion: 7, CorrelationID: 7}
-	out, err := h.handleProduce(context.Background(), hdr, req)
+	out, err := h.handleProduce(ctx, hdr, req)
 	if err != nil {
 		return nil, err
 	}
@@ -169,7 +174,12 @@ func vProduce(h *handler, acks int16, parts map[string]map[int32][]byte) ([]vPar
 
 // vProduceOne produces one record set to one partition.
 func vProduceOne(h *handler, topic string, partition int32, acks int16, records []byte) (vPartResult, error) {
-	res, err := vProduce(h, acks, map[string]map[int32][]byte{topic: {partition: records}})
+	return vProduceOneCtx(context.Background(), h, topic, partition, acks, records)
+}
+
+// vProduceOneCtx is vProduceOne with the request context given by the caller.
+func vProduceOneCtx(ctx context.Context, h *handler, topic string, partition int32, acks int16, records []byte) (vPartResult, error) {
+	res, err := vProduceCtx(ctx, h, acks, map[string]map[int32][]byte{topic: {partition: records}})
 	if err != nil {
 		return vPartResult{}, err
 	}
